@@ -131,6 +131,9 @@ func visitInstr(fr *frame, instr ssa.Instruction) continuation {
 		// no-op
 
 	case *ssa.UnOp:
+		if i.race != nil && instr.Op == token.MUL {
+			i.raceAccess(fr.get(instr.X), false, false, instr.Pos())
+		}
 		fr.env[instr] = i.unop(instr, fr.get(instr.X))
 
 	case *ssa.BinOp:
@@ -194,6 +197,9 @@ func visitInstr(fr *frame, instr ssa.Instruction) continuation {
 		}
 
 	case *ssa.Store:
+		if i.race != nil {
+			i.raceAccess(fr.get(instr.Addr), true, false, instr.Pos())
+		}
 		i.storeAt(mustDeref(instr.Addr.Type()), fr.get(instr.Addr), fr.get(instr.Val))
 
 	case *ssa.If:
@@ -280,12 +286,20 @@ func visitInstr(fr *frame, instr ssa.Instruction) continuation {
 		fr.env[instr] = i.index(fr.get(instr.X), fr.get(instr.Index))
 
 	case *ssa.Lookup:
+		if i.race != nil {
+			if m, ok := fr.get(instr.X).(*gmap); ok {
+				i.raceAccess(m, false, false, instr.Pos())
+			}
+		}
 		fr.env[instr] = i.lookup(instr, fr.get(instr.X), fr.get(instr.Index))
 
 	case *ssa.MapUpdate:
 		m := fr.get(instr.Map).(*gmap)
 		if m == nil {
 			panic(targetPanic{i.runtimeError("assignment to entry in nil map")})
+		}
+		if i.race != nil {
+			i.raceAccess(m, true, false, instr.Pos())
 		}
 		m.insert(i, fr.get(instr.Key), fr.get(instr.Value))
 
